@@ -9,34 +9,10 @@ namespace Martian.ForkName
 
 /-! ## Validity and shape -/
 
-/-- a resolved part whose index / key is in range -/
-def partValid : Part → Bool
-  | .arr i len _ => decide (i < len)
-  | .key k keys _ => keys.contains k
-  | _ => false
 
-/-- a part that contributes nothing to the id: unresolved, or with an empty range -/
-def partSkip : Part → Bool
-  | .undet => true
-  | .empty => true
-  | .arr _ len _ => len == 0
-  | .key _ keys _ => keys.isEmpty
 
-def partOk (p : Part) : Bool := partValid p || partSkip p
 
-/-- same call structure: same kind, same length / key set, same static-ness
-(and, for a part with an empty range, the same irrelevant payload) -/
-def sameShapeP : Part → Part → Bool
-  | .arr i l s, .arr i' l' s' => l == l' && s == s' && (l != 0 || i == i')
-  | .key k ks s, .key k' ks' s' => ks == ks' && s == s' && (!ks.isEmpty || k == k')
-  | .undet, .undet => true
-  | .empty, .empty => true
-  | _, _ => false
 
-def sameShape : List Part → List Part → Bool
-  | [], [] => true
-  | p :: ps, q :: qs => sameShapeP p q && sameShape ps qs
-  | _, _ => false
 
 /-! ## A fuel-free description of what `forkIdGo true true` appends -/
 
